@@ -4,14 +4,14 @@ use crate::support::*;
 use educe::Educe;
 use core::cmp::Ordering;
 #[derive(Educe)]
-#[repr(i32)]
-#[educe(PartialEq, PartialOrd, Eq)]
-pub enum T { Zed = 1 }
-
-pub fn values() -> Vec<T> { vec![T::Zed] }
-pub fn show(x: &T) -> String { #[allow(unused_variables)] match x { T::Zed => format!("Zed()") } }
-pub fn o_disc(x: &T) -> i128 { match x { T::Zed => 1 } }
-pub fn o_pcmp(a: &T, b: &T) -> Option<Ordering> { match (a, b) { (T::Zed, T::Zed) => {  Some(Ordering::Equal) } } }
+#[repr(i64)]
+#[educe(Ord, PartialEq, Eq)]
+pub enum T { Some = 1000, Unit { state: bool, b: u8 } = -170 }
+impl PartialOrd for T { fn partial_cmp(&self, o: &Self) -> Option<Ordering> { Some(::core::cmp::Ord::cmp(self, o)) } }
+pub fn values() -> Vec<T> { vec![T::Some, T::Unit { state: false, b: 0 }, T::Unit { state: false, b: 100 }, T::Unit { state: false, b: 200 }, T::Unit { state: true, b: 0 }, T::Unit { state: true, b: 100 }, T::Unit { state: true, b: 200 }] }
+pub fn show(x: &T) -> String { #[allow(unused_variables)] match x { T::Some => format!("Some()"), T::Unit { state: p0, b: p1 } => format!("Unit({},{})", sv(p0), sv(p1)) } }
+pub fn o_disc(x: &T) -> i128 { match x { T::Some => 1000, T::Unit { state: _, b: _ } => -170 } }
+pub fn o_cmp(a: &T, b: &T) -> Ordering { match (a, b) { (T::Some, T::Some) => {  Ordering::Equal }, (T::Unit { state: a0, b: a1 }, T::Unit { state: b0, b: b1 }) => { let c = ::core::cmp::Ord::cmp(a0, b0); if c != Ordering::Equal { return c; } let c = ::core::cmp::Ord::cmp(a1, b1); if c != Ordering::Equal { return c; } Ordering::Equal }, _ => o_disc(a).cmp(&o_disc(b)) } }
 #[repr(C)] pub struct Wrap { pub pre: u8, pub x: T, pub post: [u8; 9] }
 pub fn wrap(i: usize, n: u8) -> Wrap { Wrap { pre: n, x: values().swap_remove(i), post: [n; 9] } }
-pub fn run(out: &mut Out) { let vs = values(); for (i, a) in vs.iter().enumerate() { for (j, b) in vs.iter().enumerate() { let e = o_pcmp(a, b); let g = ::core::cmp::PartialOrd::partial_cmp(a, b); out.check(g == e, "ordlayout_21", "partial_cmp", || format!("partial_cmp({}, {}) = {:?} expected {:?}", show(a), show(b), g, e)); for n in [0u8, 1, 0x7f, 0x80, 0xff] { let wa = wrap(i, n); let wb = wrap(j, !n); let g = ::core::cmp::PartialOrd::partial_cmp(&wa.x, &wb.x); let e = o_pcmp(a, b); out.check(g == e, "ordlayout_21", "cmp_neighbours", || format!("cmp({}, {}) with neighbour bytes {} = {:?} expected {:?}", show(a), show(b), n, g, e)); } } } }
+pub fn run(out: &mut Out) { let vs = values(); for (i, a) in vs.iter().enumerate() { for (j, b) in vs.iter().enumerate() { let e = o_cmp(a, b); let g = ::core::cmp::Ord::cmp(a, b); out.check(g == e, "ordlayout_21", "cmp", || format!("cmp({}, {}) = {:?} expected {:?}", show(a), show(b), g, e)); for n in [0u8, 1, 0x7f, 0x80, 0xff] { let wa = wrap(i, n); let wb = wrap(j, !n); let g = ::core::cmp::Ord::cmp(&wa.x, &wb.x); let e = o_cmp(a, b); out.check(g == e, "ordlayout_21", "cmp_neighbours", || format!("cmp({}, {}) with neighbour bytes {} = {:?} expected {:?}", show(a), show(b), n, g, e)); } } } }
